@@ -164,6 +164,42 @@ def D23():
     assert len(out) == 50 and all(o.dtype == torch.bool and tuple(o.shape) == (3,) for o in out)
 
 
+def D25():
+    from inferno.learn import STDP
+    from inferno.neural import Serial, LinearDense, DeltaCurrent, LIF
+    c = LinearDense((3,), (2,), 1.0, synapse=DeltaCurrent.partialconstructor(1.0))
+    c.updater = c.defaultupdater()
+    n = LIF((2,), 1.0, rest_v=-60, reset_v=-65, thresh_v=-50, refrac_t=2, time_constant=20, resistance=1)
+    l = Serial(c, n)
+    t = STDP(1.0, -1.0, 20.0, 20.0)
+    t.register_cell("c", l.cell)
+    w0 = c.weight.clone()
+    c.updater.weight = (torch.ones(2, 3), None)
+    t.update()
+    assert torch.equal(c.weight, w0 + 1)
+
+
+def D26():
+    from inferno.learn import STDP
+    from inferno.neural import Serial, LinearDense, DeltaCurrent, LIF
+
+    def mk():
+        c = LinearDense((3,), (2,), 1.0, synapse=DeltaCurrent.partialconstructor(1.0))
+        c.updater = c.defaultupdater()
+        n = LIF((2,), 1.0, rest_v=-60, reset_v=-65, thresh_v=-50, refrac_t=2, time_constant=20, resistance=1)
+        return Serial(c, n)
+
+    l1, l2 = mk(), mk()
+    t = STDP(1.0, -1.0, 20.0, 20.0)
+    t.register_cell("a", l1.cell)
+    t.register_cell("b", l2.cell)
+    # drive only layer 2: cell b's presynaptic spike monitor must see it
+    l2(torch.ones(1, 3))
+    assert t.get_monitor("b", "spike_pre").peek().any()
+    pa = t.get_monitor("a", "spike_pre").peek()
+    assert pa is None or not pa.any()
+
+
 if __name__ == "__main__":
     names = sys.argv[1:] or [k for k in sorted(globals()) if k.startswith("D") and k[1:].isdigit()]
     bad = 0
